@@ -22,6 +22,9 @@ func rsaEncrypt(pemPubKey, nonce, password []byte) ([]byte, error) {
 	if len(rest) > 0 {
 		return nil, fmt.Errorf("trailing bytes in public key: %#v", rest)
 	}
+	if pubKeyBlock == nil {
+		return nil, fmt.Errorf("no PEM data found in public key")
+	}
 
 	publicKey, err := x509.ParsePKCS1PublicKey(pubKeyBlock.Bytes)
 	if err != nil {
